@@ -14,13 +14,22 @@ def setup():
     t0 = time.time()
     from tools import translate
     translate.main()
-    ok, out = common.coq_make([], jobs=16, timeout=7000)
-    if not ok:
+    import json
+    ready = json.loads((common.VERIF / "harness" / "registry.json").read_text()).get("_ready", [])
+    # build everything, keep going past files that are still work in progress; the claimed properties must build
+    ok, out = common.coq_make(["-k"], jobs=16, timeout=7000)
+    missing = [p for p in ready if not (common.COQ / "Props" / f"{p}.vo").exists()]
+    if missing:
         print(out[-6000:])
-        print("SETUP FAILED: coq build")
+        print("SETUP FAILED: coq build of claimed properties", missing)
         return 1
+    if not ok:
+        print("setup: some unclaimed (work in progress) Coq files did not build; claimed properties are fine")
     for e in sorted(p.stem for p in (common.COQ / "Model").glob("*Entry.v")):
-        common.build_model(e)
+        try:
+            common.build_model(e)
+        except RuntimeError as ex:
+            print(f"setup: model {e} not built: {str(ex)[:200]}")
     print(f"setup ok in {time.time() - t0:.0f}s")
     return 0
 
